@@ -80,7 +80,7 @@ def minimise(mod, rec, tier, run_child, budget_s=90.0):
     rec = dict(rec)
     rec["original_plan_size"] = len(repr(rec["plan"]))
     rec["plan"] = plan
-    rec["verdict"] = {k: res.get(k) for k in ("oracle", "signature", "detail", "digest")}
+    rec["verdict"] = {k: res.get(k) for k in ("oracle", "signature", "detail", "digest", "vdigest")}
     rec["trace_tail"] = res.get("trace_tail")
     rec["shrink"] = {"attempts": attempts, "final_plan_size": len(repr(plan))}
     return rec
